@@ -165,7 +165,17 @@ struct TC2 {
   bool operator==(const TC2 &o) const { return v == o.v; }
   bool operator<(const TC2 &o) const { return v < o.v; }
 };
+// trivially default constructible as well (like int): value-initialisation and default-initialisation differ for it
+struct POD4 {
+  int v;
+  POD4() = default;
+  POD4(int x) : v(x) {}  // NOLINT
+  int value() const { return v; }
+  bool operator==(const POD4 &o) const { return v == o.v; }
+  bool operator<(const POD4 &o) const { return v < o.v; }
+};
 static_assert(std::is_trivially_copyable<TC4>::value && std::is_trivially_copyable<TC2>::value, "TC");
+static_assert(std::is_trivially_default_constructible<POD4>::value && std::is_trivially_copyable<POD4>::value, "POD");
 
 template <class T>
 struct ElInfo {
